@@ -25,8 +25,9 @@ def is_lfs_envelope(value: bytes | None) -> bool:
         return False
     if value[:1] != b"{":
         return False
-    prefix = value[:50].decode("utf-8", errors="ignore")
-    return "\"kfs_lfs\"" in prefix
+    # Byte-level search, like the Go SDK: decoding with errors="ignore" would
+    # glue a marker together across undecodable bytes.
+    return b"\"kfs_lfs\"" in bytes(value[:50])
 
 
 def decode_envelope(value: bytes) -> LfsEnvelope:
